@@ -227,6 +227,14 @@ def run(tier, seed):
         K = np.array([[0, -ax[2], ax[1]], [ax[2], 0, -ax[0]], [-ax[1], ax[0], 0]])
         Uh = np.eye(3) + math.sin(th) * K + (1 - math.cos(th)) * K.dot(K)
         D.run("u_to_euler", [Uh], note="(rotation by pi - %.1e)" % (math.pi - th))
+    # products R'.R and R'.R.Rz(a): proper rotations whose (3,3) entry is 1 within an ulp, on either side
+    for _ in range(60 if tier == "quick" else 1000):
+        Rr = np.asarray(tools.euler_to_u(rng.uniform(0, 6.28), rng.uniform(0, 3.14), rng.uniform(0, 6.28)), dtype=float)
+        az = rng.uniform(0, 6.28)
+        Rzz = np.array([[math.cos(az), -math.sin(az), 0], [math.sin(az), math.cos(az), 0], [0, 0, 1.0]])
+        for Up in (Rr.T.dot(Rr), Rr.T.dot(Rr).dot(Rzz), Rzz.dot(Rr.T.dot(Rr))):
+            D.run("u_to_euler", [Up], note="(product of rotations, U33 - 1 = %.1e)" % (Up[2, 2] - 1))
+            D.run("u_to_rod", [Up], note="(product of rotations)", tol=1e-9)
     # ---- D: reflection generation
     tabs, dic = export.write_tables_module(wd)
     pick = [(t["no"], t["setting"]) for t in tabs if t["no"] in (1, 2, 5, 14, 19, 62, 88, 123, 143, 146, 148, 150, 155, 158, 159, 160, 163, 165, 167, 176, 185, 186, 188, 194, 198, 205, 220, 225, 227, 230)]
